@@ -74,7 +74,25 @@ func famCfIndex(k *mon.Case) {
 	}
 	check("base")
 	for i := 0; i < 6+r.Intn(8) && !s.Failed; i++ {
-		switch r.Intn(5) {
+		switch r.Intn(6) {
+		case 5: // the node runs without the index for a while (blocks with spends, maybe a reorganisation), then the
+			// index is switched on again and has to catch up from the stored blocks and their spend journals
+			s.Cfg.CfIndex = false
+			s.Restart(r.Bool())
+			for j := 0; j < 2+r.Intn(4) && !s.Failed; j++ {
+				b := g.Block(r, s.Tip, chaingen.BlockOpts{NTx: 1 + r.Intn(5)})
+				s.DeliverBlock(b)
+			}
+			if r.Chance(1, 3) && s.Tip.Height > 4 {
+				p := s.Tip.Ancestor(s.Tip.Height - 2)
+				for j := 0; j < 3 && !s.Failed; j++ {
+					p = g.Block(r, p, chaingen.BlockOpts{NTx: 1 + r.Intn(3)})
+					s.DeliverBlock(p)
+				}
+			}
+			s.Cfg.CfIndex = true
+			s.Restart(r.Bool())
+			k.Count("cfindex.catch-ups", 1)
 		case 0, 1:
 			b := g.Block(r, s.Tip, chaingen.BlockOpts{NTx: 1 + r.Intn(5)})
 			s.DeliverBlock(b)
